@@ -389,6 +389,9 @@ class CSSSerializer:
 
     def do_CSSStyleSheet(self, stylesheet):
         """serializes a complete CSSStyleSheet"""
+        # specificity nesting (indentSpecificities) starts anew with each sheet
+        self._selectors = []
+        self._selectorlevel = 0
         useduris = stylesheet._getUsedURIs()
         out = []
         for rule in stylesheet.cssRules:
@@ -806,7 +809,7 @@ class CSSSerializer:
                     (self._level + int(self.prefs.indentClosingBrace))
                     * self.prefs.indent,
                 ),
-                self._selectorlevel,
+                self._selectorlevel if self.prefs.indentSpecificities else 0,
             )
 
     def do_css_SelectorList(self, selectorlist):
